@@ -337,6 +337,8 @@ def main():
             elif job['type'] == 'conformance':
                 viol += conformance_job(job, ev, ctx)
             elif job['type'] == 'custom':
+                ctx['api'] = {'drive': drive, 'validate': validate, 'tlc': tlc, 'load_traces': load_traces, 'Infra': Infra,
+                              'BUILD': BUILD, 'compact': compact}
                 viol += job['fn'](job, ev, ctx)
     except Infra as x:
         log('BROKEN (infrastructure, not a verdict): %s' % x)
